@@ -90,6 +90,7 @@ type CertSpec struct {
 	SKI          []byte // nil = omit
 	AKI          []byte // nil = omit
 	IsCA         bool
+	BCFalse      int // 1: BasicConstraints present with an empty SEQUENCE (cA defaults to FALSE); 2: explicit cA FALSE
 	OmitBC       bool
 	PathLen      int   // -1 = absent
 	KeyUsageBits []int // nil = omit extension
@@ -131,7 +132,11 @@ func Issue(spec CertSpec, issuerKey *Key, scheme Scheme, rng *core.Rng) *Cert {
 	if spec.AKI != nil {
 		exts = append(exts, ext(oidExtAKI, false, der.Seq(der.ImplicitPrim(0, spec.AKI))))
 	}
-	if spec.IsCA || !spec.OmitBC {
+	if spec.BCFalse == 1 {
+		exts = append(exts, ext(oidExtBC, true, der.Seq()))
+	} else if spec.BCFalse == 2 {
+		exts = append(exts, ext(oidExtBC, true, der.Seq(der.Bool(false))))
+	} else if spec.IsCA || !spec.OmitBC {
 		if spec.IsCA {
 			bc := [][]byte{der.Bool(true)}
 			if spec.PathLen >= 0 {
